@@ -152,7 +152,7 @@ impl ExecError {
                 Some(n) => format!("custom:{n}"),
                 None => format!("builtin:{:#x}", c),
             },
-            ExecError::Panic(_) => "panic".into(),
+            ExecError::Panic(m) => format!("panic:{}", m.chars().take(160).collect::<String>().replace('\n', " ")),
             ExecError::Cpi(m) => format!("cpi:{m}"),
             ExecError::Runtime(m) => format!("runtime:{m}"),
         }
@@ -748,9 +748,89 @@ unsafe fn run(input: *mut u8, route: Route, pino: &mut bool) -> u64 {
         }
     }
     let (program_id, accounts, data) = solana_program::entrypoint::deserialize(input);
+    if route == Route::ForceAnchor {
+        if let Some(r) = anchor_liquidity_handlers(program_id, &accounts, data) {
+            return match r {
+                Ok(()) => 0,
+                Err(e) => solana_program::program_error::ProgramError::from(e).into(),
+            };
+        }
+    }
     match whirlpool::entry(program_id, &accounts, data) {
         Ok(()) => 0,
         Err(e) => e.into(),
+    }
+}
+
+/// The program's `#[program]` entries for increase/decrease liquidity (v1, v2) are `unreachable!()` stubs because
+/// entrypoint.rs routes these discriminators to Pinocchio — but the Anchor *handlers* still exist and are the reference
+/// implementation (C12). This replicates exactly what Anchor's generated dispatcher does for an instruction:
+/// deserialize args, `try_accounts`, call the handler, `exit`.
+fn anchor_liquidity_handlers<'info>(
+    program_id: &Pubkey,
+    accounts: &'info [AccountInfo<'info>],
+    data: &[u8],
+) -> Option<anchor_lang::Result<()>> {
+    use anchor_lang::{Accounts, AccountsExit, AnchorDeserialize, Discriminator};
+    use whirlpool::instruction as wi;
+    use whirlpool::instructions as ins;
+    if data.len() < 8 {
+        return None;
+    }
+    let (disc, args) = data.split_at(8);
+    macro_rules! run {
+        ($accs:ty, $bumps:ty, $ixty:ty, |$ctx:ident, $ix:ident| $call:expr) => {{
+            let mut a: &[u8] = args;
+            let $ix = match <$ixty>::deserialize(&mut a) {
+                Ok(x) => x,
+                Err(_) => return Some(Err(anchor_lang::error::ErrorCode::InstructionDidNotDeserialize.into())),
+            };
+            let mut bumps = <$bumps>::default();
+            let mut reallocs = std::collections::BTreeSet::new();
+            let mut rem: &[AccountInfo<'info>] = accounts;
+            let mut accs = match <$accs>::try_accounts(program_id, &mut rem, args, &mut bumps, &mut reallocs) {
+                Ok(x) => x,
+                Err(e) => return Some(Err(e)),
+            };
+            let $ctx = anchor_lang::context::Context::new(program_id, &mut accs, rem, bumps);
+            if let Err(e) = $call {
+                return Some(Err(e));
+            }
+            Some(accs.exit(program_id))
+        }};
+    }
+    if disc == wi::IncreaseLiquidity::DISCRIMINATOR {
+        run!(ins::ModifyLiquidity<'info>, ins::ModifyLiquidityBumps, wi::IncreaseLiquidity, |ctx, ix| ins::increase_liquidity::handler(
+            ctx,
+            ix.liquidity_amount,
+            ix.token_max_a,
+            ix.token_max_b
+        ))
+    } else if disc == wi::DecreaseLiquidity::DISCRIMINATOR {
+        run!(ins::ModifyLiquidity<'info>, ins::ModifyLiquidityBumps, wi::DecreaseLiquidity, |ctx, ix| ins::decrease_liquidity::handler(
+            ctx,
+            ix.liquidity_amount,
+            ix.token_min_a,
+            ix.token_min_b
+        ))
+    } else if disc == wi::IncreaseLiquidityV2::DISCRIMINATOR {
+        run!(ins::ModifyLiquidityV2<'info>, ins::ModifyLiquidityV2Bumps, wi::IncreaseLiquidityV2, |ctx, ix| ins::v2::increase_liquidity::handler(
+            ctx,
+            ix.liquidity_amount,
+            ix.token_max_a,
+            ix.token_max_b,
+            ix.remaining_accounts_info
+        ))
+    } else if disc == wi::DecreaseLiquidityV2::DISCRIMINATOR {
+        run!(ins::ModifyLiquidityV2<'info>, ins::ModifyLiquidityV2Bumps, wi::DecreaseLiquidityV2, |ctx, ix| ins::v2::decrease_liquidity::handler(
+            ctx,
+            ix.liquidity_amount,
+            ix.token_min_a,
+            ix.token_min_b,
+            ix.remaining_accounts_info
+        ))
+    } else {
+        None
     }
 }
 
